@@ -55,95 +55,12 @@ def specs(repo):
 ORDER = ['excelutil', 'engineering']
 
 
-# ---- C20: pycel.lib.text — the slicing/search functions that are plain
-# Python over str/int (the @excel_helper decorators are metadata; the wrappers
-# they request are modelled in coq/Model/Text.v).  substitute (while loop),
-# trim (regex) and text (TextFormat) are hand-modelled in coq/Model/Text.v.
-_specs_before_text = specs
-
-
-def specs(repo):     # noqa: F811
-    S = _specs_before_text(repo)
-    ext = excelutil_externs()
-    ext['coerce_to_string'] = ('func', 'excelutil.f_coerce_to_string',
-                               FuncInfo('coerce_to_string', ['value'], {}, False,
-                                        'f_coerce_to_string'))
-    S['text'] = dict(
-        pymod='pycel.lib.text',
-        path=os.path.join(repo, 'src', 'pycel', 'lib', 'text.py'),
-        consts=[],
-        funcs=['concatenate', 'exact', 'find', 'left', 'len_', 'lower', 'mid', 'replace',
-               'right', 'upper'],
-        externs=ext,
-        libcalls={'flatten': ('py_flatten', 1),
-                  '__methods__': {'find': ('str_find2', 2), 'join': ('str_join', 1)}},
-    )
-    return S
-
-
-ORDER = ORDER + ['text']
-
-
-# ---- C19: pycel.excellib — the rounding family (plain arithmetic over numbers;
-# the @excel_math_func wrappers are modelled in coq/Model/MathWrap.v)
-_specs_before_excellib = specs
-
-
-def specs(repo):     # noqa: F811
-    S = _specs_before_excellib(repo)
-    S['excellib'] = dict(
-        pymod='pycel.excellib',
-        path=os.path.join(repo, 'src', 'pycel', 'excellib.py'),
-        consts=[],
-        import_consts=['ROUND_DOWN', 'ROUND_HALF_UP', 'ROUND_UP'],
-        funcs=['ceiling', 'ceiling_math', 'ceiling_precise', 'even', 'floor', 'floor_math',
-               'floor_precise', 'int_', 'mod', 'odd', 'round_', '_round', 'rounddown', 'roundup',
-               'sign', 'trunc', 'abs_'],
-        externs=excelutil_externs(),
-        libcalls={'math.ceil': ('py_ceil', 1), 'math.floor': ('py_floor', 1),
-                  'math.copysign': ('py_copysign', 2)},
-    )
-    return S
-
-
-ORDER = ORDER + ['excellib']
-
-
-# ---- C17: pycel.lib.date_time — the integer date path (datetime/calendar are
-# modelled by coq/Lib/PyDate.v; wrappers by coq/Model/DateFuncs.v)
-_specs_before_dates = specs
-
-
-def specs(repo):     # noqa: F811
-    S = _specs_before_dates(repo)
-    ext = excelutil_externs()
-    ext['coerce_to_number'] = ('func', 'excelutil.f_coerce_to_number',
-                               FuncInfo('coerce_to_number', ['value', 'convert_all'],
-                                        {'convert_all': __import__('ast').Constant(value=False)},
-                                        True, 'f_coerce_to_number'))
-    ext['is_number'] = ('func', 'excelutil.f_is_number',
-                        FuncInfo('is_number', ['value'], {}, False, 'f_is_number'))
-    ext['yearfrac_basis_1'] = ('func', 'py_unmodelled2',
-                               FuncInfo('yearfrac_basis_1', ['beg', 'end'], {}, False, 'py_unmodelled2'))
-    S['date_time'] = dict(
-        pymod='pycel.lib.date_time',
-        path=os.path.join(repo, 'src', 'pycel', 'lib', 'date_time.py'),
-        consts=['DATE_ZERO', 'DATE_MAX_INT', 'LEAP_1900_SERIAL_NUMBER', 'LEAP_1900_TUPLE'],
-        funcs=['date_from_int', 'is_leap_year', 'max_days_in_month', 'normalize_year',
-               'yearfrac_basis_0', 'date', 'months_inc', 'edate', 'eomonth', 'day', 'month', 'year',
-               'weekday', 'yearfrac'],
-        externs=ext,
-        fuel={'normalize_year': 'py_recursion_fuel', 'coerce_to_number': 'py_fuel'},
-        libcalls={'dt.datetime': ('py_datetime', 3), 'calendar.monthrange': ('py_monthrange', 2),
-                  'math.floor': ('py_floor', 1),
-                  '__attrs__': {'days': 'py_delta_days', 'year': 'py_date_year',
-                                'month': 'py_date_month', 'day': 'py_date_day'}},
-        header_imports=['Lib.PyDate'],
-    )
-    return S
-
-
-ORDER = ORDER + ['date_time']
+# ---- per-property spec blocks live in translator/specs/*.py; each is executed
+# here, in this module's namespace, in file-name order, and extends `specs` and
+# `ORDER` (one file per property keeps concurrent edits from colliding)
+import glob as _glob
+for _f in sorted(_glob.glob(os.path.join(HERE, 'specs', '*.py'))):
+    exec(compile(open(_f).read(), _f, 'exec'), globals())
 
 
 def generate(repo, out, modules=None):
